@@ -50,6 +50,10 @@ func (s *StreamSelectorPlanner) getMatchers() (*matchersResponse, error) {
 		if err != nil {
 			return nil, err
 		}
+		if selector.Op == "=~" || selector.Op == "!~" {
+			// label matchers match the whole value (as in Prometheus); ClickHouse match() searches
+			_str = "^(?:" + _str + ")$"
+		}
 		var clause sql.SQLCondition
 		switch selector.Name {
 		case "__name__":
